@@ -6,7 +6,9 @@ DIR="$1"; shift
 cd /repo || exit 2
 if ! git diff --quiet; then echo "/repo has uncommitted changes"; exit 2; fi
 git apply "$DIR/patch.diff" || { echo "patch does not apply"; exit 2; }
-trap 'git -C /repo checkout -- . ' EXIT
+# evidence written while the change is applied says nothing about /repo: keep the real files aside
+EVSAVE=$(mktemp -d /verif/target/evidence.XXXXXX); cp -a /verif/evidence/. "$EVSAVE"/
+trap 'git -C /repo checkout -- . ; rm -rf /verif/evidence; mkdir -p /verif/evidence; cp -a "$EVSAVE"/. /verif/evidence/; rm -rf "$EVSAVE"' EXIT
 cd /verif
 for id in "$@"; do
   found=""
